@@ -34,9 +34,8 @@ Definition kept_pins (g : circuit) (ign : list string) : gset string := bb_pins 
 Definition pin_rho (kept : gset string) (n : string) : string := if bool_decide (n ∈ kept) then undot n else n.
 
 (* tx.strip_blackboxes(c, ignore_pins); ign is the normalised list (None / "" / [] -> [], a str -> [str]).
-   ValueError when a new name is already a node of the (pruned) graph.  Two kept pins with the same
-   new name (instances "a.b" and "a_b" with equal pin names) are merged by networkx in graph order;
-   that order-dependent corner is outside the modelled domain and reported as BadOrder. *)
+   ValueError when a new name is already a node of the (pruned) graph, or when two kept pins get the same new name
+   (instances "a.b" and "a_b" with equal pin names; fix 2361640 -- before it networkx merged the two pins). *)
 Definition strip_blackboxes (C : Circuit) (ign : list string) : res Circuit :=
   let g := c_g C in
   let kept := kept_pins g ign in
@@ -44,7 +43,7 @@ Definition strip_blackboxes (C : Circuit) (ign : list string) : res Circuit :=
   let g2 := expose_info <$> g1 in
   let news := undot <$> elements kept in
   if existsb (λ k, bool_decide (k ∈ dom g2)) news then Raise ValueError else
-  if negb (bool_decide (NoDup news)) then BadOrder else
+  if negb (bool_decide (NoDup news)) then Raise ValueError else
   Ok {| c_name := c_name C; c_g := rename_g (pin_rho kept) g2; c_bbs := ∅ |}.
 
 (* Api functions return (state, outcome); the value-level view used in statements *)
